@@ -13,7 +13,7 @@ import mpmath
 
 import featlib
 from featlib import Check, rel
-from cfold import Folder, Num, Obj, LRef, NotConstant
+from cfold import Folder, Num, Obj, LRef, NotConstant, _Return
 
 mpmath.mp.dps = 70
 CUB = featlib.repo_path("kernel/cubature/")
@@ -200,13 +200,167 @@ FUNCS = {
 }
 
 
+NPOS = (1 << 64) - 1
+
+
+def _s(folder, v):
+    v = folder.rvalue(v)
+    if not isinstance(v, str):
+        raise NotConstant("string expected, got %r" % (v,))
+    return v
+
+
+def _pos(folder, v):
+    return Num(Fraction(NPOS if v < 0 else v))
+
+
+def s_compare_no_case(folder, call, obj, args):
+    a, b = _s(folder, obj).lower(), _s(folder, args[0]).lower()
+    return Num(Fraction((a > b) - (a < b)))
+
+
+def s_find_first_of(folder, call, obj, args):
+    s, chars = _s(folder, obj), _s(folder, args[0])
+    start = folder.num(args[1]).as_int() if len(args) > 1 else 0
+    hits = [i for i in range(min(start, len(s)), len(s)) if s[i] in chars]
+    return _pos(folder, hits[0] if hits else -1)
+
+
+def s_find_first_not_of(folder, call, obj, args):
+    s, chars = _s(folder, obj), _s(folder, args[0])
+    start = folder.num(args[1]).as_int() if len(args) > 1 else 0
+    hits = [i for i in range(min(start, len(s)), len(s)) if s[i] not in chars]
+    return _pos(folder, hits[0] if hits else -1)
+
+
+def s_substr(folder, call, obj, args):
+    s = _s(folder, obj)
+    pos = folder.num(args[0]).as_int() if args else 0
+    cnt = folder.num(args[1]).as_int() if len(args) > 1 else NPOS
+    if pos > len(s):
+        raise NotConstant("substr position beyond the string (std::out_of_range)")
+    return s[pos:pos + cnt] if cnt < NPOS else s[pos:]
+
+
+def s_parse(folder, call, obj, args):
+    """String::parse<int>: stream extraction, i.e. a *prefix* parse"""
+    m = re.match(r"^\s*[+-]?\d+", _s(folder, obj))
+    if not m:
+        return False
+    if not isinstance(args[0], LRef):
+        raise NotConstant("parse target is not an lvalue")
+    args[0].set(Num(Fraction(int(m.group(0)))))
+    return True
+
+
+def s_assign(folder, call, obj, args):
+    if not isinstance(args[0], LRef):
+        raise NotConstant("string assignment to a non-lvalue")
+    args[0].set(_s(folder, args[1]))
+    return args[0]
+
+
+# documented semantics of the string operations met on the name-parsing paths (trusted model)
+STRING_METHODS = {
+    "FEAT::String::compare_no_case": s_compare_no_case,
+    "FEAT::String::trim": lambda folder, call, obj, args: _s(folder, obj).strip(" \t\r\n\v\f") if not args else _s(folder, obj).strip(_s(folder, args[0])),
+    "FEAT::String::substr": s_substr,
+    "std::basic_string::substr": s_substr,
+    "std::basic_string::find_first_of": s_find_first_of,
+    "std::basic_string::find_first_not_of": s_find_first_not_of,
+    "std::basic_string::empty": lambda folder, call, obj, args: len(_s(folder, obj)) == 0,
+    "std::basic_string::size": lambda folder, call, obj, args: Num(Fraction(len(_s(folder, obj)))),
+    "FEAT::String::parse": s_parse,
+    "FEAT::String::operator=": s_assign,
+    "std::basic_string::operator=": s_assign,
+}
+
+
+class Record(Obj):
+    """an object of a small repo class (alias mapper, prefix functor) folded through its own member functions:
+    data members live in `slots`"""
+
+    def __init__(self, cls):
+        super().__init__(cls)
+
+
 class TFolder(Folder):
     """Folder whose method/function tables are keyed by template-argument-free names"""
+
+    def __init__(self, *a, **kw):
+        super().__init__(*a, **kw)
+        self.record_calls = []     # (class, method name, argument values) of every member call on a Record
+
+    def eval(self, n, env, fn):
+        k = n["k"]
+        if k == "This":
+            if "__this__" not in env:
+                raise NotConstant("`this` outside a folded member function")
+            return env["__this__"]
+        if k == "Char":
+            return chr(n["v"])
+        if k == "Member" and n.get("n") == "npos":
+            return Num(Fraction(NPOS))
+        if k == "Ref" and n.get("n") == "npos" and n.get("dk") == "smember":
+            return Num(Fraction(NPOS))
+        return super().eval(n, env, fn)
+
+    def lookup(self, call):
+        # overloads share qualified and full names (create(rule,int) / create(rule,String)): the declaration id decides
+        cd = call.get("cdecl")
+        if cd is not None:
+            cands = self.by_qn.get((call.get("callee"), len(call.get("pn", []))), [])
+            ex = [f for f in cands if f.d.get("decl") == cd]
+            if len(ex) == 1:
+                return ex[0]
+        return super().lookup(call)
+
+    def call_method(self, target, this, args):
+        env = {"__this__": this}
+        for p, a in zip(target.params, args):
+            env[p["d"]] = a
+        if target.full not in self.inlined:
+            self.inlined_fns.append(target)
+        self.inlined.add(target.full)
+        if target.d.get("ctor"):
+            for it in target.d.get("inits", []) or []:
+                if "member" in it:
+                    this.slots[it["member"]] = self.rvalue(self.eval(it["init"], env, target))
+        try:
+            self.exec(target.body, env, target)
+        except _Return as r:
+            return r.v
+        return None
+
+    def bind_args(self, n, target, env, fn):
+        args = []
+        for a, p in zip(n.get("a", []), target.params):
+            v = self.eval(a, env, fn)
+            pt = target.type(p["t"])
+            args.append(v if (pt.endswith("&") and not pt.startswith("const ")) else self.rvalue(v))
+        return args
 
     def call(self, n, env, fn):
         c = n.get("callee")
         if c:
             s = strip_targs(c)
+            if n["k"] in ("MCall", "OpCall") and s in STRING_METHODS and c not in self.methods:
+                self.methods[c] = STRING_METHODS[s]
+            if n["k"] in ("Construct", "TempObj") and s not in METHODS and c not in self.methods and s.startswith("FEAT::Cubature::"):
+                target = self.lookup(n)
+                if target is not None and target.d.get("ctor"):
+                    this = Record(n.get("ccls") or s)
+                    self.call_method(target, this, self.bind_args(n, target, env, fn))
+                    return this
+            if n["k"] == "MCall" and s not in METHODS and s not in STRING_METHODS and c not in self.methods and n.get("obj") is not None:
+                o = self.rvalue(self.eval(n["obj"], env, fn))
+                if isinstance(o, Record):
+                    target = self.lookup(n)
+                    if target is None:
+                        raise NotConstant("member function %s has no body in the fact base (line %s)" % (c, n.get("l")))
+                    args = self.bind_args(n, target, env, fn)
+                    self.record_calls.append((o.cls, n.get("n"), [self.rvalue(a) for a in args], n.get("l"), fn))
+                    return self.call_method(target, o, args)
             if n["k"] in ("MCall", "Construct", "TempObj", "OpCall"):
                 if s in METHODS and c not in self.methods:
                     self.methods[c] = METHODS[s]
@@ -713,6 +867,151 @@ def check_param_fully_parsed(ck, facts):
             ck.ob(RULE, key, ok, detail, f.file, n.get("l", f.line))
 
 
+# -------------------------------------------------------------------------------------------------
+# nominal identity of the classical named rules (E13.alias-identity)
+# -------------------------------------------------------------------------------------------------
+# The library registers alias names of classical formulas (Driver::alias -> functor.alias(name[, points])) and answers a
+# request for the alias with `<driver>[:points]`.  Which formula a classical name denotes is fixed by the literature, not by
+# the library: the alias table and the published alias list (AvailFunctor) change together when the table is wrong, so the
+# identity must come from outside.  The driver headers do not spell the alias list out in prose; the closed Newton-Cotes
+# driver cites its source (`\see http://de.wikipedia.org/wiki/Newton-Cotes-Formeln`), whose table names exactly these
+# formulas by the number of sub-intervals n (nodes = n+1): n=1 Trapezregel, n=2 Simpson-Regel, n=3 3/8-Regel (pulcherrima),
+# n=4 Milne-/Boole-Regel, n=5 6-Punkt-Regel, n=6 Weddle-Regel; the barycentre driver cites the rectangle (midpoint) method
+# and documents "this rule has one point".  The table below is transcribed from those sources; the citations are
+# anchor-checked (ALIAS_DOC_ANCHORS): when they change, the oracle has to be re-confirmed and the rule answers exit 2.
+ALIAS_ORACLE = {
+    # alias: (canonical driver name, points per direction, degree of exactness of the named formula, what the name denotes)
+    "simpson": ("newton-cotes-closed", 3, 3, "Simpson's rule is the closed Newton-Cotes formula with 3 points (2 sub-intervals), exact to degree 3"),
+    "pulcherrima": ("newton-cotes-closed", 4, 3, "the 3/8 rule (pulcherrima) is the closed Newton-Cotes formula with 4 points, exact to degree 3"),
+    "milne-boole": ("newton-cotes-closed", 5, 5, "Boole's (Milne's) rule is the closed Newton-Cotes formula with 5 points, exact to degree 5"),
+    "6-point": ("newton-cotes-closed", 6, 5, "the 6-point rule is the closed Newton-Cotes formula with 6 points, exact to degree 5"),
+    "weddle": ("newton-cotes-closed", 7, 7, "Weddle's rule is the closed Newton-Cotes formula with 7 points (6 sub-intervals), exact to degree 7"),
+    "midpoint": ("barycentre", 1, 1, "the midpoint (rectangle) rule has one point, the barycentre, and is exact to degree 1"),
+}
+ALIAS_DOC_ANCHORS = {
+    "newton-cotes-closed": ("kernel/cubature/scalar/newton_cotes_closed_driver.hpp", r"\\see\s+\S*wikipedia\.org/wiki/Newton-Cotes"),
+    "barycentre": ("kernel/cubature/barycentre_driver.hpp", r"\\see\s+\S*wikipedia\.org/wiki/Rectangle_method"),
+}
+PROBE_NAME = "no-such-rule\x01"
+
+
+def _doc_anchor_present(driver):
+    path, rx = ALIAS_DOC_ANCHORS[driver]
+    try:
+        text = open(featlib.repo_path(path), errors="replace").read()
+    except OSError:
+        return False, path
+    comments = "\n".join(re.findall(r"/\*.*?\*/|//[^\n]*", text, flags=re.S))
+    return re.search(rx, comments, flags=re.I) is not None, path
+
+
+def check_alias_identity(ck, facts, folder_proto, rules, degrees, shape_of, tier):
+    RULE = "E13.alias-identity"
+    anchors_ok = {}
+    entries = []
+    for f in facts.functions:
+        if f.tk == "pattern" or f.name != "create" or not f.d.get("static") or len(f.params) != 2:
+            continue
+        if not f.type(f.params[1]["t"]).replace("const ", "").strip().endswith("String &"):
+            continue
+        base = strip_targs(f.cls)
+        if base in ("FEAT::Cubature::DriverFactory", "FEAT::Cubature::Scalar::DriverFactory",
+                    "FEAT::Cubature::TensorProductFactoryBase", "FEAT::Cubature::SimplexScalarFactoryBase"):
+            entries.append(f)
+    if len(entries) < 40:
+        ck.incomplete(RULE, "only %d factory entry points create(rule, name) found" % len(entries))
+    for f in sorted(entries, key=lambda f: f.full):
+        kind, dim = shape_of(f)
+        base = strip_targs(f.cls)
+        if base.endswith("SimplexScalarFactoryBase"):
+            kind, dim = "simplex", 1
+        scalar = kind == "scalar"
+        short = base.rsplit("::", 1)[-1] + "<" + ",".join(re.findall(r"(\w+Driver)\b", f.cls)[:1]) + ">"
+        inst0 = "%s%s/%s" % (kind, dim if not scalar else "", short)
+
+        def fold(name):
+            fo = folder_proto()
+            r = RuleObj(scalar, 0, "", dim)
+            ret = fo.rvalue(fo.call_function(f, [r, name]))
+            return fo, r, ret
+        # (1) probe with a name no factory knows: lists every alias the factory compares the name with
+        try:
+            fo, r, ret = fold(PROBE_NAME)
+        except (NotConstant, AssertFails) as e:
+            ck.incomplete(RULE, "%s: create(rule, <unknown name>) not foldable: %s" % (inst0, e))
+            continue
+        ck.ob("E7.unknown-refused", "fold/" + inst0, ret is False, "create(rule, <a name no factory knows>) folds to %r" % (ret,), f.file, f.line, trivial=True)
+        registered = []
+        for cls, meth, args, line, gfn in fo.record_calls:
+            if meth == "alias" and "AliasMapper" in cls and args and isinstance(args[0], str):
+                n_reg = None
+                if len(args) > 1:
+                    try:
+                        n_reg = fo.num(args[1]).as_int()
+                    except NotConstant:
+                        ck.incomplete(RULE, "%s: point count registered for alias '%s' is not a constant" % (inst0, args[0]))
+                        continue
+                registered.append((args[0], n_reg, line, gfn))
+        # (2) every registered alias is answered with the formula the name denotes
+        for alias, n_reg, line, gfn in registered:
+            inst = "%s/alias:%s" % (inst0, alias)
+            where = (gfn.file if gfn is not None else f.file, line or f.line)
+            orc = ALIAS_ORACLE.get(alias.lower())
+            m = re.match(r"^(\d+)-point$", alias.lower())
+            try:
+                fo2, r2, ret2 = fold(alias)
+            except (NotConstant, AssertFails) as e:
+                ck.incomplete(RULE, "%s: create(rule, '%s') not foldable: %s" % (inst, alias, e))
+                continue
+            got_parts = [p for p in (r2.name or "").split(":") if p not in ("tensor", "scalar")]
+            got_driver = got_parts[0] if got_parts else ""
+            if orc is None and m and got_driver:
+                pts = int(m.group(1))
+                nd = nominal_degree(got_driver, pts)
+                orc = (got_driver, pts, nd if nd is not None else 0, "the name states %d points" % pts)
+            if orc is None:
+                ck.incomplete(RULE, "%s: the alias '%s' (registered at %s:%s) has no nominal identity recorded in the oracle table of this check" % (
+                    inst, alias, rel(where[0]), where[1]))
+                continue
+            drv, pts, deg, says = orc
+            if m and int(m.group(1)) != pts:
+                ck.incomplete(RULE, "%s: oracle entry for '%s' contradicts the point count in the name" % (inst, alias))
+                continue
+            if drv in ALIAS_DOC_ANCHORS and drv not in anchors_ok:
+                anchors_ok[drv] = _doc_anchor_present(drv)
+                if not anchors_ok[drv][0]:
+                    ck.incomplete(RULE, "the citation the alias oracle of '%s' was transcribed from is no longer found in the comments of %s: re-confirm the oracle table" % (drv, anchors_ok[drv][1]))
+            if drv in anchors_ok and not anchors_ok[drv][0]:
+                continue
+            prob = []
+            if ret2 is not True:
+                prob.append("create(rule, '%s') returns %r although the alias is registered" % (alias, ret2))
+            else:
+                if n_reg is not None and n_reg != pts:
+                    prob.append("alias('%s', %d) registers the %d-point rule of '%s'; %s" % (alias, n_reg, n_reg, got_driver or drv, says))
+                if got_driver != drv:
+                    prob.append("the alias is answered with the rule '%s' of driver '%s', expected driver '%s'" % (r2.name, got_driver, drv))
+                want_n = pts ** dim if base.endswith("TensorProductFactoryBase") else pts
+                if r2.n != want_n:
+                    prob.append("the alias is answered with the rule '%s' of %d points, the named formula has %d%s" % (
+                        r2.name, r2.n or 0, want_n, " (= %d^%d)" % (pts, dim) if want_n != pts else ""))
+                if not prob or r2.n:
+                    skind = "simplex" if kind == "simplex" else "cube"
+                    if r2.n and r2.n <= (400 if tier == "quick" else 4000) and all(i in r2.w for i in range(r2.n)) and all((i, j) in r2.x for i in range(r2.n) for j in range(r2.dim)):
+                        D, fail = achieved_degree(r2, skind, deg)
+                        src = "achieved"
+                    else:
+                        D = degrees.get((kind, dim, got_driver, n_reg or 0))
+                        src = "established for '%s'" % r2.name
+                    if D is None:
+                        ck.incomplete(RULE, "%s: degree of the rule '%s' not established" % (inst, r2.name))
+                        continue
+                    if D < deg:
+                        prob.append("the rule '%s' answered for '%s' is exact to degree %d only (%s); %s" % (r2.name, alias, D, src, says))
+            ck.ob(RULE, inst, not prob, "; ".join(prob) if prob else "'%s' -> '%s' (%d points): %s" % (alias, r2.name, r2.n, says), where[0], where[1],
+                  sample={"alias": alias, "answered_with": r2.name, "points": r2.n, "oracle": [drv, pts, deg]})
+
+
 def run(tier):
     ck = Check("C14", tier)
     ck.rule("E9.extract", "every (factory, n) entry point of the cubature layer folds to a complete constant table: the rule is created with count(n) points, every point index receives exactly one weight and dim coordinates, none outside the table", 100)
@@ -727,6 +1026,11 @@ def run(tier):
     ck.rule("E1.rule-model", "the Rule / Scalar::Rule operations that the folder models natively (accessors, allocating constructor, move "
             "constructor, move assignment, clone) conform to the model: every role (count, name, weights, points) of the result is defined from the "
             "same role of the source", 36)
+    ck.rule("E13.alias-identity", "every alias name a factory registers (Driver::alias -> functor.alias(name[, points]); found by folding create(rule, name) "
+            "through the alias mapper) is answered by create(rule, alias) with the classical formula that name denotes in the literature (oracle table "
+            "transcribed from the sources the drivers cite: simpson 3, pulcherrima 4, milne-boole 5, 6-point 6, weddle 7 closed Newton-Cotes points; "
+            "midpoint = the one-point barycentre rule): driver, point count and degree of exactness of the named formula - a user asking for 'weddle' "
+            "otherwise gets a rule that is not exact to the degree the name promises", 31)
     ck.rule("E7.param-fully-parsed", "every numeric name parameter (point count, refine count, degree) read with String::parse - a prefix parse - is "
             "accepted only if the whole parameter string was validated (digits only), so a malformed name is refused instead of answered with another rule", 4)
 
@@ -1185,6 +1489,9 @@ def run(tier):
                             ok = False
             ck.ob("E7.unknown-refused", "name-check/" + f.full[:110], ok, "name comparison (compare_no_case != 0 -> return false) dominates every successful return" if ok else "a successful return is reachable without the name comparison", f.file, f.line)
 
+    # ---- classical alias names are answered with the formula they denote
+    check_alias_identity(ck, facts, folder_proto, rules, degrees, shape_of, tier)
+
     # ---- the natively modelled Rule class conforms to the model
     check_rule_model(ck, facts)
 
@@ -1198,5 +1505,8 @@ def run(tier):
             "product structure, refine:* degree preservation, auto-degree mapping, and refusal of out-of-range / unknown names. The rule space is finite "
             "and enumerated completely (exhaustive over rule names x point counts; refine depth <= %d)." % (1 if tier == "quick" else 2))
     ck.assume("decimal literals are trusted to 4 units of their last printed digit; identities are decided within the propagated bound (errors below that bound are not detectable)")
+    ck.assume("E13.alias-identity: the identity of the classical alias names (simpson 3, pulcherrima 4, milne-boole 5, 6-point 6, weddle 7 closed Newton-Cotes points; midpoint = "
+              "one-point barycentre rule) is an oracle transcribed from the sources the drivers cite (anchor-checked citations); create(rule, name) is folded through the alias "
+              "mapper with the String operations (compare_no_case, trim, substr, find_first_of, find_first_not_of, empty, parse = prefix parse) modelled by their documented semantics")
     ck.assume("nominal degree laws: gauss-legendre 2n-1, gauss-lobatto 2n-3, dunavant n, newton-cotes/maclaurin n-1 (+1 for odd n), silvester-open n, hammer-stroud/lauffer-degree-k k, barycentre/midpoint/trapezoidal 1; shunn-ham only through auto-degree")
     return ck.finish(expl, exhaustive=True, extra={"achieved_degrees": {"%s%s/%s:%s" % (k[0], k[1], k[2], k[3]): v for k, v in sorted(degrees.items())}})
